@@ -841,7 +841,12 @@ func (l *commitLog) Clean() error {
 // rebaseSegments adds the segments in from to the end of the slice of segments
 // in to.
 func (l *commitLog) rebaseSegments(from, to []*segment) []*segment {
-	return append(to, from...)
+	// Build a new slice: to may still share its backing array with the
+	// snapshot of the segment list that readers are using (and with the list
+	// the split appended to), so appending in place would write to it.
+	segments := make([]*segment, 0, len(to)+len(from))
+	segments = append(segments, to...)
+	return append(segments, from...)
 }
 
 // clean returns the cleaned segments and, if compaction ran, a
